@@ -1442,6 +1442,15 @@ class Executor(object):
             return b
         if n.id.startswith('__H_'):
             return SV(PT('func'), py=('oracle', n.id))
+        # sibling closures / local classes of the enclosing function (the verified function is nested)
+        q = self.func.qualname if self.func is not None else ''
+        while '.' in q:
+            q = q.rsplit('.', 1)[0]
+            cand = q + '.' + n.id
+            if cand in self.program.functions:
+                return SV(PT('func'), py=('closure', self.program.functions[cand][1], cand))
+            if cand in self.program.classes:
+                return SV(PT('class'), py=cand)
         raise OutOfSubset('unknown name %s at line %d' % (n.id, getattr(n, 'lineno', 0)))
 
     def builtin_name(self, name):
